@@ -195,8 +195,32 @@ debug = 1
 """
 
 
+# Layout pins. rustc stores the discriminant of `Leaf` (and of `Data`) in the niche of the first field's own tag, so
+# the two variants put their fields at DIFFERENT offsets (a slice length of one variant overlays a pointer of the
+# other). CBMC keeps a union value through its first widest member and derives the other members from it; a length
+# that passed through a pointer-typed slot comes back as `(size_t)(u8*)2`, which symbolic execution does not fold
+# to a constant: every size- or length-driven decision in the code under test then forks (measured: Node::split on a
+# 6-entry leaf with concrete sizes: 612 k steps, out of memory; with the pin the same sizes are constants).
+# `#[repr(u64)]` gives both variants an explicit tag and aligned fields. The attribute changes the in-memory layout
+# of two enums that are never transmuted, measured with size_of, or stored on disk; no function body is touched.
+# If a declaration is not found exactly once (renamed by a change under test) the pin is skipped, nothing fails.
+LAYOUT_PINS = [
+    ("node.rs", "pub(crate) enum Leaf<"),
+    ("data.rs", "pub enum Data<"),
+]
+
+# Declaration order of the two variants of `Leaf` (two adjacent lines swapped, nothing else): CBMC resolves a pointer
+# into a union by offset and takes the FIRST member that fits; both variants start with a `Bytes`, so every key of a
+# key/value entry stored in a Vec was read through the `Bucket` member of a value written through `Kv`, an expression
+# symbolic execution does not fold either. With `Kv` declared first the common case (key/value entries) folds.
+# Variant order is unobservable for this enum (derives Clone only, no casts, no ordering).
+VARIANT_ORDER = [
+    ("node.rs", "    Bucket(Bytes<'a>, BucketMeta),\n", "    Kv(Bytes<'a>, Bytes<'a>),\n"),
+]
+
+
 def generate(out, harness_dir=None, repo=REPO, quiet=False, profile="model"):
-    harness_dir = harness_dir or os.path.join(VERIF, "harness")
+    harness_dir = harness_dir or os.environ.get("JV_HARNESS_DIR") or os.path.join(VERIF, "harness")
     src_in = os.path.join(repo, "src")
     src_out = os.path.join(out, "src")
     os.makedirs(src_out, exist_ok=True)
@@ -213,6 +237,16 @@ def generate(out, harness_dir=None, repo=REPO, quiet=False, profile="model"):
         if strip_uses(orig) != strip_uses(new):
             raise SystemExit("INFRA: use-redirection changed a non-use token in %s" % f)
         mod = f[:-3]
+        # layout pins (see LAYOUT_PINS): an attribute in front of the `enum` keyword, same line, nothing else touched
+        if os.environ.get("JV_NO_LAYOUT_PINS") != "1":
+            for pf, decl in LAYOUT_PINS:
+                if pf == f and new.count(decl) == 1 and "repr(" not in new[max(0, new.index(decl) - 200):new.index(decl)].split("}")[-1]:
+                    new = new.replace(decl, "#[repr(u64)] " + decl)
+                    report.setdefault("layout_pins", []).append("%s: %s" % (f, decl.strip()))
+            for pf, a, b in VARIANT_ORDER:
+                if pf == f and new.count(a + b) == 1 and os.environ.get("JV_NO_VARIANT_ORDER") != "1":
+                    new = new.replace(a + b, b + a)
+                    report.setdefault("layout_pins", []).append("%s: variant order %s <-> %s" % (f, a.strip(), b.strip()))
         h = os.path.join(harness_dir, f)
         if mod != "lib" and os.path.exists(h):
             _copy_harness(h, os.path.join(jv_out, f), profile)
